@@ -30,6 +30,8 @@ type vChanConn struct {
 	eof    bool
 	// autoPong: the gateway answers every PINGREQ at once
 	autoPong bool
+	// autoDisc: the gateway answers every DISCONNECT at once
+	autoDisc bool
 }
 
 func vNewChanConn() *vChanConn { return &vChanConn{in: make(chan []byte, 16)} }
@@ -62,6 +64,9 @@ func (c *vChanConn) Write(p []byte) (int, error) {
 	c.outAt = append(c.outAt, vNow())
 	if c.autoPong && len(p) >= 2 && p[1] == vtPINGREQ && len(c.in) < cap(c.in) {
 		c.in <- []byte{2, vtPINGRESP}
+	}
+	if c.autoDisc && len(p) >= 2 && p[1] == vtDISCONNECT && len(c.in) < cap(c.in) {
+		c.in <- []byte{2, vtDISCONNECT}
 	}
 	return len(p), nil
 }
